@@ -7,8 +7,8 @@ from . import core
 from .c14_run import Runner
 
 PROP = "C14"
-LEAN_TARGETS = ["Asynkit.Props.C14"]
-PROPS_FILES = ["Asynkit/Props/C14.lean"]
+LEAN_TARGETS = ["Asynkit.Props.C14", "Asynkit.Lemmas.GenEqC14"]
+PROPS_FILES = ["Asynkit/Props/C14.lean", "Asynkit/Lemmas/GenEqC14.lean"]
 DRIVERS = ["Cond"]
 TRUSTED = [
     "Lean 4.33 kernel; axioms ⊆ {propext, Classical.choice, Quot.sound} (audited per theorem each run)",
